@@ -16,12 +16,12 @@ import (
 // trusted base of C04/C11/C20. `./check SELF quick`.
 
 type vtCase struct {
-	Name   string
-	W, H   int
-	In     string
-	Rows   [2][]string // expected rows (right-trimmed) under the xterm and VTE models
-	Cur    [3]int      // row, col, pending(0/1) under the xterm model
-	DSRs   int
+	Name string
+	W, H int
+	In   string
+	Rows [2][]string // expected rows (right-trimmed) under the xterm and VTE models
+	Cur  [3]int      // row, col, pending(0/1) under the xterm model
+	DSRs int
 }
 
 var vtCases = []vtCase{
